@@ -696,7 +696,11 @@ pub fn run() {
     // lengths that are and are not multiples of them)
     par_cases("very-long", t.pick(120usize, 6_000usize), move |r, i| {
         let n = 1 + r.below(2);
-        let len = *r.pick(&[1000usize, 1024, 1025, 1030, 2048, 2100, 4096, 4200]) + if r.chance(0.3) { r.below(7) } else { 0 };
+        let len = if r.chance(0.5) {
+            *r.pick(&[1000usize, 1024, 1025, 1030, 2048, 2100, 4096, 4200]) + if r.chance(0.3) { r.below(7) } else { 0 }
+        } else {
+            r.log_uniform(200, 5000)
+        };
         let mut p = CircParams::unitary(n, len, PhPool::Exact);
         p.min_qubits = n;
         p.ccz = false;
@@ -713,8 +717,11 @@ pub fn run() {
     // concatenation of very unequal lengths, in both orders
     par_cases("concat-unequal", t.pick(150usize, 8_000usize), move |r, i| {
         let n = 1 + r.below(2);
-        let long = *r.pick(&[512usize, 600, 1024, 1100, 2500]);
-        let short = *r.pick(&[1usize, 2, 3, 8, 40, 64]);
+        let (long, short) = if r.chance(0.5) {
+            (*r.pick(&[512usize, 600, 1024, 1100, 2500]), *r.pick(&[1usize, 2, 3, 8, 40, 64]))
+        } else {
+            (r.log_uniform(100, 3000), r.log_uniform(1, 100))
+        };
         let mut pl = CircParams::unitary(n, long, PhPool::Exact);
         pl.min_qubits = n;
         pl.ccz = false;
